@@ -29,11 +29,11 @@ def import_hpl():
 _PARSERS = {}
 
 
-def parsers(fresh=False, grammar_from_sources=False):
+def parsers(fresh=False, grammar_from_sources=False, debug=False):
     """One parser object per entry point (building a Lark parser costs seconds)."""
     import_hpl()
     from hpl import parser as P
-    key = 'src' if grammar_from_sources else 'pkg'
+    key = 'src' if grammar_from_sources else ('dbg' if debug else 'pkg')
     if not fresh and key in _PARSERS:
         return _PARSERS[key]
     if grammar_from_sources:
@@ -45,6 +45,14 @@ def parsers(fresh=False, grammar_from_sources=False):
             'condition': P.HplParser.from_grammar(pred, start='hpl_expression',
                                                   transform=P.predicate_from_expression),
             'expression': P.HplParser.from_grammar(pred, start='hpl_expression'),
+        }
+    elif debug:
+        d = {
+            'specification': P.specification_parser(debug=True),
+            'property': P.property_parser(debug=True),
+            'predicate': P.predicate_parser(debug=True),
+            'condition': P.condition_parser(debug=True),
+            'expression': P.expression_parser(debug=True),
         }
     else:
         d = {
